@@ -6,6 +6,7 @@ import socketio
 from .. import common, e1
 from ..cworld import ClientWorld
 from ..enum import has_bytes
+from ..introspect import callbacks_of, clear_client_partial_packet
 
 NSS = ['/', '/a']
 IDS = [None, 0, 1, 7]
@@ -249,7 +250,7 @@ class Model:
         c = w.c
         return (tuple((ns, w.emitted[ns], tuple(sorted(w.out[ns])),
                        tuple(sorted(repr(k) for k in
-                                    c.callbacks.get(ns, {}))))
+                                    callbacks_of(c).get(ns, {}))))
                       for ns in NSS),
                 c.connected, tuple(sorted(c.namespaces)))
 
@@ -278,11 +279,11 @@ class Model:
             self._bad(w, 'zero-attachments', f'BINARY_EVENT with 0 '
                       f'attachments: handler log {log!r}, client sent '
                       f'{frames!r}')
-            w.c._binary_packet = None
+            clear_client_partial_packet(w.c)
         w.obs_key = n
         # ledger vs client table
         for ns in NSS:
-            real = sorted(x for x in w.c.callbacks.get(ns, {}) if x != 0)
+            real = sorted(callbacks_of(w.c).get(ns, {}))
             if real != sorted(w.out[ns]):
                 self._bad(w, 'ledger', f'{ns}: client has outstanding '
                           f'{real}, ledger {sorted(w.out[ns])}')
